@@ -18,13 +18,24 @@ def run(tier):
     sub = [c for c in cases if c.startswith("prog ")][:: max(1, len(cases) // (600 if tier == "quick" else 6000))]
     wcases, base = [], []
     for k, c in enumerate(sub):
-        w = "ann" if k % 2 == 0 else "box"
+        w = ("ann", "box", "und")[k % 3]
         wcases.append("wrapped %s %s" % (w, c[5:]))
         base.append(io[cases.index(c)])
     wo = ctx.run_impl("prog", wcases)
     ctx.evaluations += len(wcases)
     nw = 0
     for wc, b, o in zip(wcases, base, wo):
+        if wc.startswith("wrapped und "):
+            # recording pass = the tokens between the first two execution marks; it must equal the unwrapped run's events
+            # (the replay pass repeats the operations without consulting the inner scheduler)
+            if "T=panic" in b or "T=deadlock" in b or "T=stepbound" in b or " @@ " not in " " + o + " ":
+                continue
+            toks = o.split(" ")
+            marks = [i for i, t in enumerate(toks) if t == "@@"]
+            end = marks[1] if len(marks) > 1 else len(toks)
+            first = [t for t in toks[:end] if t != "@@" and not (t.startswith("T=") or t.startswith("S="))]
+            bev = [t for t in b.split(" ") if not (t.startswith("T=") or t.startswith("S="))]
+            o, b = " ".join(first), " ".join(bev)
         if o != b:
             nw += 1
             if nw <= 3:
